@@ -58,6 +58,9 @@ META["rule"] += (
 META["rule"] += (
     " " + 'Added after the fifth round: 30 % of the plain networks enter through Network.FromIGraph with an igraph object whose links are listed in a random order (node weights and link attribute on the igraph object); the directed switch as bool / np.bool_ / 0-1.')
 
+META["rule"] += (
+    " " + 'Added after the sixth round: ResNetwork measures that take node indices (closeness centrality, vertex betweenness, pair resistances) after the global measures, indices mapped through the renumbering.')
+
 HIST = ("distribution", "cdf", "histogram", "entropy")
 # nsi_degree_histogram & co. bin float values: when all nodes have the same
 # n.s.i. degree, rounding decides the bin (frequency histograms are outside
@@ -222,6 +225,39 @@ def compare_objects(ctx, kind, o0, o1, perm, n, cid, case, have_attr,
                 ctx.violation(f"{kind}:{label}:not-equivariant",
                               {**case, "perm": perm, "orig": brief(v0),
                                "relabelled": brief(v1)}, cid)
+
+
+def node_indexed_resistive(ctx, o0, o1, perm, n, cid, case, r):
+    """ResNetwork measures that take node indices: node u of the original is
+    node inv[u] of the renumbered network.  They are asked after the global
+    measures of compare_objects (which fill the object's stores)."""
+    inv = np.argsort(perm)
+    nodes = [int(v) for v in r.permutation(n)[:min(n, 4)]]
+    rows = []
+    for u in nodes:
+        rows.append((f"effective_resistance_closeness_centrality({u})",
+                     lambda o, a: o.effective_resistance_closeness_centrality(
+                         a), (u,)))
+        rows.append((f"vertex_current_flow_betweenness({u})",
+                     lambda o, a: o.vertex_current_flow_betweenness(a),
+                     (u,)))
+    for a, b in zip(nodes, nodes[1:]):
+        rows.append((f"effective_resistance({a},{b})",
+                     lambda o, a_, b_: o.effective_resistance(a_, b_),
+                     (a, b)))
+    for label, f, args in rows:
+        ok0, v0 = ctx.call(f, o0, *args)
+        ok1, v1 = ctx.call(f, o1, *[int(inv[a]) for a in args])
+        ctx.evals(2)
+        ctx.count("node_indexed_compared")
+        name = label.split("(")[0]
+        if ok0 != ok1:
+            ctx.violation(f"ResNetwork:{name}:raises-on-one-numbering",
+                          {**case, "call": label}, cid)
+        elif ok0 and not eq(v0, v1, 1e-6):
+            ctx.violation(f"ResNetwork:{name}:not-equivariant",
+                          {**case, "call": label, "perm": perm,
+                           "original": v0, "relabelled": v1}, cid)
 
 
 def node_list_measures(ctx, kind, o0, o1, perm, n, cid, case, r):
@@ -653,6 +689,9 @@ def run(ctx):
                         "VisibilityGraph", "RecurrenceNetwork"):
                 node_list_measures(ctx, kind, o0, o1, p, n, cid, case,
                                    ctx.rng("nl", cid, int(p[0]), int(p[-1])))
+            if kind == "ResNetwork":
+                node_indexed_resistive(ctx, o0, o1, p, n, cid, case,
+                                       ctx.rng("ni", cid, int(p[0])))
     while ctx.time_left() > 0 and k < cap:
         k += 1
         if not ctx.mine(k):
@@ -689,6 +728,8 @@ def run(ctx):
                 if kind in ("Network", "InteractingNetworks", "GeoNetwork",
                             "VisibilityGraph", "RecurrenceNetwork"):
                     node_list_measures(ctx, kind, o0, o1, p, n, cid, case, r)
+                if kind == "ResNetwork":
+                    node_indexed_resistive(ctx, o0, o1, p, n, cid, case, r)
                 # permuted_copy cross-check (plain networks)
                 if kind in ("Network", "Network[directed]"):
                     ok, pc = ctx.call(o0.permuted_copy, p)
